@@ -41,7 +41,21 @@ def main():
     # which checks catch it
     assert sh("git status --short", "/repo")[1].strip() == "", "/repo not clean"
     caught, details = [], {}
-    assert sh(f"git apply --whitespace=nowarn {patch}", "/repo")[0] == 0
+    applied = False
+    for opt in ("", "--3way", "-C1"):
+        if sh(f"git apply --whitespace=nowarn {opt} {patch}", "/repo")[0] == 0:
+            applied = True
+            break
+        sh("git checkout -- . && git reset -q", "/repo")
+    if not applied:
+        print("NOT RE-CHECKED: the patch no longer applies to the current tree (the code it edits was repaired since)")
+        dst = f"/verif/seeded/{prop}-{k}"
+        mp = os.path.join(dst, "meta.json")
+        if os.path.exists(mp):
+            m = json.load(open(mp))
+            m["applies_to_current_tree"] = False
+            json.dump(m, open(mp, "w"), indent=1)
+        return 0
     try:
         for f in sorted(os.listdir("/verif/xpverif/checks")):
             m = re.fullmatch(r"(c\d\d)\.py", f)
@@ -56,7 +70,7 @@ def main():
                 if c == 1:
                     caught.append(pid)
     finally:
-        sh("git checkout -- .", "/repo")
+        sh("git reset -q && git checkout -- .", "/repo")
         shutil.rmtree("/tmp/adopt_out", ignore_errors=True)
     dst = f"/verif/seeded/{prop}-{k}"
     os.makedirs(dst, exist_ok=True)
@@ -67,7 +81,7 @@ def main():
     notes = os.path.join(src, "notes.md")
     if os.path.exists(notes):
         needs = " ".join(open(notes).read().split())[:600]
-    meta = {"property": prop, "origin": "independent sub-agent given only the property text and a scratch worktree",
+    meta = {"property": prop, "applies_to_current_tree": True, "origin": "independent sub-agent given only the property text and a scratch worktree",
             "needs_to_manifest": needs, "verified": ran, "caught_by": caught, "check_details": details}
     json.dump(meta, open(os.path.join(dst, "meta.json"), "w"), indent=1)
     print("ADOPTED", dst, "caught_by", caught, json.dumps(details)[:600])
